@@ -14,7 +14,7 @@
    delegation list and every storage slot; the same validator at every address,
    the same statistics, withdraw queue, staking record at every key and pending
    relationships. *)
-From VF.C10 Require Import Model ProofsMaps ProofsStk ProofsVal ProofsObj ProofsAcc Proofs ProofsTop Bridge.
+From VF.C10 Require Import Model ProofsMaps ProofsStk ProofsVal ProofsObj ProofsAcc Proofs ProofsTop Bridge Instance.
 From VF.gen Require Import C10CopyTable.
 From Coq Require Import String.
 Local Open Scope N_scope.
@@ -141,6 +141,85 @@ Theorem C10_copy_flags_of_tree :
   && negb (N.eqb (class_of "stateObject"%string "dirtyDlgs"%string) 5).
 Proof. exact keep_flag_matches_table. Qed.
 Print Assumptions C10_copy_flags_of_tree.
+
+(* 5. the trie-root half of [WorldOk] discharged by instantiation with C13 (Instance.v).
+   [root_of H K l] is the root hash (C13's [root_hash], node hash H) of the
+   Merkle-Patricia trie that inserting the content l under the keys K builds.
+   [CryptoOk H K KB]: H injective, 32 bytes long, only the RLP empty string hashes to
+   the empty-trie constant; K injective on keys below KB into byte strings shorter
+   than 2^30.  [vals_ok]: trie values non-empty and shorter than 2^32 bytes.
+
+   (a) whatever history of updates and deletes built the real trie, if its reference
+   map is the content, its root is [root_of] of the content (C13_history_independent) *)
+Theorem C10_trie_root_of_any_history :
+  forall H K KB, CryptoOk H K KB -> forall ops l, keys_ok KB l -> Forall VF.C13.Proofs.op_ok ops ->
+    (forall key, VF.C13.Proofs.bytes_ok key ->
+       VF.C13.Model.m_run ops key = VF.C13.Model.m_run (ops_of K l) key) ->
+    VF.C13.Model.root_hash H (VF.C13.Model.run ops) = root_of H K l.
+Proof. exact root_of_any_history. Qed.
+Print Assumptions C10_trie_root_of_any_history.
+
+(* (b) equal roots, equal contents; and only the empty content has the empty root
+   (from C13's commit / re-open theorem and the injectivity of H) *)
+Theorem C10_trie_root_injective :
+  forall H K KB, CryptoOk H K KB -> forall l1 l2,
+    keys_ok KB l1 -> sorted l1 -> vals_ok l1 -> keys_ok KB l2 -> sorted l2 -> vals_ok l2 ->
+    root_of H K l1 = root_of H K l2 -> l1 = l2.
+Proof. exact root_of_inj. Qed.
+Print Assumptions C10_trie_root_injective.
+
+(* (c) the world whose four roots are these Merkle-Patricia roots (account trie,
+   storage tries, validator trie with its three special keys, staking trie), whose
+   code / delegation hashes are H, over any record codecs C meeting [CodecOk]
+   (round trip, encodings non-empty and shorter than 2^32 bytes), satisfies
+   [WorldOk]: no hypothesis about roots is left.  Contents with a key outside the
+   key universe (none in a real state) get an injective placeholder root. *)
+Theorem C10_world_instantiated :
+  forall H K KB C, CryptoOk H K KB -> CodecOk C -> WorldOk (MptWorld H K KB C).
+Proof. exact mpt_world_ok. Qed.
+Print Assumptions C10_world_instantiated.
+
+Theorem C10_instantiated_root_is_mpt_root :
+  forall H K KB C, CryptoOk H K KB -> forall ops l, keys_ok KB l -> Forall VF.C13.Proofs.op_ok ops ->
+    (forall key, VF.C13.Proofs.bytes_ok key ->
+       VF.C13.Model.m_run ops key = VF.C13.Model.m_run (ops_of K l) key) ->
+    VF.C13.Model.root_hash H (VF.C13.Model.run ops) = @root_acct (MptWorld H K KB C) l.
+Proof. intros H K KB C CO. exact (mroot_any_history H K KB CO). Qed.
+Print Assumptions C10_instantiated_root_is_mpt_root.
+
+(* (d) the two main theorems for the instantiated world: what remains assumed is
+   [CryptoOk] (cryptography) and [CodecOk] (C14's round trip for the record types,
+   which holds on representable values; see Instance.v) *)
+Theorem C10_reopen_mpt :
+  forall H K KB C, CryptoOk H K KB -> CodecOk C ->
+  forall d s l de, @DbOk (MptWorld H K KB C) d -> @Inv (MptWorld H K KB C) d s ->
+    let W := MptWorld H K KB C in
+    let ds := @crun W (d, s) l in
+    let d' := fst (@commit W (fst ds) de (snd ds)) in
+    let s' := snd (@commit W (fst ds) de (snd ds)) in
+    exists n r,
+      @new_state W d' (fst (fst (@roots W s'))) (snd (fst (@roots W s'))) (snd (@roots W s')) = Some n /\
+      @new_reader W d' (snd (fst (@roots W s'))) = Some r /\
+      @state_eq W d' n d' s' /\ @val_eq W r (s_val s') /\ @Inv W d' n.
+Proof. intros H K KB C CO CD. exact (reopen_mpt H K KB C CO CD). Qed.
+Print Assumptions C10_reopen_mpt.
+
+Theorem C10_content_only_mpt :
+  forall H K KB C, CryptoOk H K KB -> CodecOk C ->
+  forall d1 s1 l1 de1 d2 s2 l2 de2,
+    let W := MptWorld H K KB C in
+    @DbOk W d1 -> @Inv W d1 s1 -> @DbOk W d2 -> @Inv W d2 s2 ->
+    let a := @crun W (d1, s1) l1 in let b := @crun W (d2, s2) l2 in
+    let ta := @iroot W (fst a) de1 (snd a) in let tb := @iroot W (fst b) de2 (snd b) in
+    @state_eq W (fst a) ta (fst b) tb -> @roots W ta = @roots W tb.
+Proof. intros H K KB C CO CD. exact (content_mpt H K KB C CO CD). Qed.
+Print Assumptions C10_content_only_mpt.
+
+(* the cryptographic hypotheses are consistent (an injective numbering of byte
+   strings as the node hash, one-byte keys) *)
+Example C10_nonvacuous_crypto : CryptoOk H0 K0 256.
+Proof. exact crypto_ok_consistent. Qed.
+Print Assumptions C10_nonvacuous_crypto.
 
 (* non-vacuity: the hypotheses on the external functions are satisfiable, and a
    concrete history (accounts with code, storage and a delegation list, a
